@@ -29,8 +29,9 @@ REPO = os.environ.get("KRROOD_VERIF_REPO", "/repo")
 #       inferred ONETOMANY by SQLAlchemy today (reference into the source's own table hierarchy, no remote_side))
 
 
-def R(name, kind, target, nullable, decl, dao_name=None, star=False):
-    return dict(name=name, kind=kind, target=target, nullable=nullable, decl=decl, dao_name=dao_name or name, star=star)
+def R(name, kind, target, nullable, decl, dao_name=None, star=False, lens=None):
+    return dict(name=name, kind=kind, target=target, nullable=nullable, decl=decl, dao_name=dao_name or name, star=star,
+                lens=lens or [0, 1, 1, 2, 2, 3, 4])
 
 
 POS = [("x", "f"), ("y", "f"), ("z", "f")]
@@ -118,6 +119,116 @@ SCHEMA: Dict[str, Dict[str, Any]] = {
     "PrivateDefaultFactory": dict(scal=[("public_value", "i"), ("_private_list", "li0")], refs=[],
                                   chain=["PrivateDefaultFactoryDAO", "SymbolDAO"]),
 }
+# Auxiliary model of the harness itself (written next to the regenerated interface and generated together with the
+# dataset by the current ORMatic): shapes the repository's dataset does not contain.
+#  * AuxPolyline: alternatively mapped, its `create_instance` materialises FRESH mapped sub-objects (AuxPoint) nobody
+#    else references -- they must stay alive while the ToDAOState lives (memo keyed by id()).
+#  * AuxTrajectory: a mapped class with `__len__` (falsy while it has no waypoints) in single-valued and collection
+#    fields -- `None` tests must be identity tests.
+AUX_MODULE = "verif_aux_model"
+AUX_SOURCE = '''"""auxiliary mapped classes of the krrood verification harness (generated file)"""
+from __future__ import annotations
+
+from dataclasses import dataclass, field
+
+from typing_extensions import List, Optional
+
+from krrood.ormatic.dao import AlternativeMapping
+
+
+@dataclass
+class AuxPoint:
+    x: float
+    y: float
+
+
+@dataclass
+class AuxPolyline:
+    """stores its vertices in a flat, interleaved coordinate list"""
+
+    name: str
+    coordinates: List[float] = field(default_factory=list)
+
+
+@dataclass
+class AuxPolylineMapping(AlternativeMapping[AuxPolyline]):
+    """persists a polyline as a list of points created on the fly"""
+
+    name: str
+    points: List[AuxPoint]
+
+    @classmethod
+    def create_instance(cls, obj: AuxPolyline):
+        c = obj.coordinates
+        return cls(obj.name, [AuxPoint(c[i], c[i + 1]) for i in range(0, len(c), 2)])
+
+    def create_from_dao(self) -> AuxPolyline:
+        return AuxPolyline(self.name, [v for p in self.points for v in (p.x, p.y)])
+
+
+@dataclass
+class AuxDrawing:
+    lines: List[AuxPolyline] = field(default_factory=list)
+
+
+@dataclass
+class AuxWaypoint:
+    x: float
+    y: float
+
+
+@dataclass
+class AuxTrajectory:
+    """a named sequence of waypoints that behaves like a sized container (falsy while empty)"""
+
+    name: str
+    waypoints: List[AuxWaypoint] = field(default_factory=list)
+
+    def __len__(self) -> int:
+        return len(self.waypoints)
+
+
+@dataclass
+class AuxMission:
+    label: str
+    trajectory: AuxTrajectory
+    fallback: Optional[AuxTrajectory] = None
+
+
+@dataclass
+class AuxSchedule:
+    missions: List[AuxMission] = field(default_factory=list)
+    spares: List[AuxTrajectory] = field(default_factory=list)
+'''
+AUX_CLASSES = ["AuxPoint", "AuxPolyline", "AuxDrawing", "AuxWaypoint", "AuxTrajectory", "AuxMission", "AuxSchedule"]
+SCHEMA.update({
+    "AuxPolyline": dict(scal=[("name", "s"), ("coordinates", "lf2")], refs=[], chain=["AuxPolylineMappingDAO"],
+                        kind="alt", mapping="AuxPolylineMapping"),
+    "AuxDrawing": dict(scal=[], refs=[R("lines", "many", "AuxPolyline", False, "AuxDrawingDAO", lens=[2, 3, 4, 5, 6])],
+                       chain=["AuxDrawingDAO"]),
+    "AuxWaypoint": dict(scal=[("x", "f"), ("y", "f")], refs=[], chain=["AuxWaypointDAO"]),
+    "AuxTrajectory": dict(scal=[("name", "s")],
+                          refs=[R("waypoints", "many", "AuxWaypoint", False, "AuxTrajectoryDAO", lens=[0, 0, 0, 1, 2])],
+                          chain=["AuxTrajectoryDAO"]),
+    "AuxMission": dict(scal=[("label", "s")],
+                       refs=[R("trajectory", "one", "AuxTrajectory", False, "AuxMissionDAO"),
+                             R("fallback", "one", "AuxTrajectory", True, "AuxMissionDAO")],
+                       chain=["AuxMissionDAO"]),
+    "AuxSchedule": dict(scal=[], refs=[R("missions", "many", "AuxMission", False, "AuxScheduleDAO", lens=[1, 2, 3, 4]),
+                                       R("spares", "many", "AuxTrajectory", False, "AuxScheduleDAO", lens=[0, 1, 2])],
+                        chain=["AuxScheduleDAO"]),
+})
+
+
+def extras_of(cls: str, scal: str) -> List[Tuple[str, int]]:
+    """rows an object contributes beyond its own chain: the sub-objects its mapping creates on the fly"""
+    if cls == "AuxPolyline":
+        text = dict(parse_scal(scal)).get("coordinates", "[]")
+        k = 0 if text == "[]" else (text.count(";") + 1) // 2
+        return [("AuxPointDAO", k), ("auxpolylinemappingdao_points_association", k)] if k else []
+    return []
+
+
 # the intermediate mapping instances (only ever visible in a result when F-C04-1 strikes)
 MAPPING_SCHEMA: Dict[str, Dict[str, Any]] = {
     "CustomEntity": dict(scal=[("overwritten_name", "s")], refs=[]),
@@ -152,6 +263,9 @@ def view_scalars(cls: str, scal: Dict[str, Any]) -> Dict[str, Any]:
         return {"values": list(scal["unmappable"].values())}
     if cls == "Vector":
         return {"x": scal["x"]}
+    if cls == "AuxPolyline":
+        c = scal["coordinates"]
+        return {"name": scal["name"], "points": [[c[i], c[i + 1]] for i in range(0, len(c), 2)]}
     return {}
 
 
@@ -298,6 +412,8 @@ def gen_scalar(rng, kind: str):
         return [rng.choice(_INTS) for _ in range(rng.choice([0, 1, 2]))]
     if kind == "li0":
         return []
+    if kind == "lf2":  # flat list of 2k floats (k vertices)
+        return [rng.choice(_FLOATS + [2.0, 5.5, -7.0]) for _ in range(2 * rng.choice([0, 1, 2, 2, 3, 4]))]
     if kind == "enum":
         return ("enum", rng.choice(["C", "H"]))
     if kind == "dt":
@@ -362,6 +478,8 @@ def node_line(i: int, n: Dict[str, Any]) -> str:
     sch = SCHEMA[n["cls"]]
     parts = [f"(n {i} {n['cls']} {sch['kind']} \"{n['scal']}\" {sch['mapping']} \"{n['view']}\"",
              "(tabs " + " ".join(sch["chain"]) + ")"]
+    for t, k in extras_of(n["cls"], n["scal"]):
+        parts.append(f"(extra {t} {k})")
     for spec, r in zip(sch["refs"], n["refs"]):
         star = f"! {spec['decl']}.{spec['dao_name']}_id" if spec["star"] else ""
         if spec["kind"] == "many":
@@ -429,6 +547,8 @@ def parse_heap(line: str) -> Dict[str, Any]:
             rr = []
             for r in refs:
                 tag = r[0].rstrip("!")
+                if tag == "extra":  # derived from class and scalars (extras_of)
+                    continue
                 if tag == "none":
                     rr.append(None)
                 elif tag == "one":
@@ -491,6 +611,7 @@ ROOT_WEIGHTS = [
     ("RelationshipParent", 1), ("ObjectAnnotation", 1), ("Atom", 1), ("UUIDWrapper", 1), ("JSONWrapper", 1),
     ("PositionTypeWrapper", 1), ("MultipleInheritance", 1), ("PrivateDefaultFactory", 1), ("ChildMapped", 1),
     ("Parent", 1), ("OriginalSimulatedObject", 1), ("Position5D", 1), ("DerivedEntity", 1), ("Orientation", 1),
+    ("AuxDrawing", 5), ("AuxSchedule", 5), ("AuxMission", 2), ("AuxTrajectory", 1), ("AuxPolyline", 1),
 ]
 
 
@@ -553,7 +674,7 @@ def gen_heap(rng, max_nodes: int = 12, p_reuse: float = 0.45, p_none: float = 0.
                         t = new(rng.choice(concrete(spec["target"])))
                 n["refs"][k] = t
             else:
-                ln = rng.choice([0, 1, 1, 2, 2, 3, 4])
+                ln = rng.choice(spec["lens"])
                 lst: List[int] = []
                 for _ in range(ln):
                     if lst and rng.random() < 0.25:
@@ -685,6 +806,14 @@ def tags_of(heap) -> Tuple[str, ...]:
             tags.add("below-alt-dao")
         if SCHEMA[n["cls"]]["kind"] == "alt":
             tags.add("alt-mapped")
+    if sum(1 for n in nodes if n["cls"] == "AuxPolyline" and extras_of(n["cls"], n["scal"])) >= 2:
+        tags.add("transient-subobjects")
+    for n in nodes:
+        for r in n["refs"]:
+            if isinstance(r, int) and nodes[r]["cls"] == "AuxTrajectory" and not nodes[r]["refs"][0]:
+                tags.add("falsy-in-single-ref")
+            if isinstance(r, list) and any(nodes[t]["cls"] == "AuxTrajectory" and not nodes[t]["refs"][0] for t in r):
+                tags.add("falsy-in-collection")
     if any(v > 1 for v in indeg.values()):
         tags.add("shared")
     if has_cycle(heap):
@@ -773,7 +902,7 @@ def altmapped_backedge(heap) -> bool:
 def build_objects(heap, ex) -> List[Any]:
     objs = []
     for n in heap["nodes"]:
-        cls = getattr(ex, n["cls"])
+        cls = getattr(ex, n["cls"], None) or getattr(sys.modules[AUX_MODULE], n["cls"])
         objs.append(cls.__new__(cls))
     for n, o in zip(heap["nodes"], objs):
         for name, text in parse_scal(n["scal"]):
@@ -924,6 +1053,13 @@ def _gen_orm_main(repo: str, out_dir: str, q) -> None:
         classes -= {ex.NotMappedParent, ex.ChildNotMapped, ex.JSONSerializableClass}
         classes = {c for c in classes if is_dataclass(c) and not issubclass(c, AlternativeMapping)}
         classes |= {FunctionType}
+        # the harness's auxiliary model, generated together with the dataset
+        with open(os.path.join(out_dir, AUX_MODULE + ".py"), "w") as f:
+            f.write(AUX_SOURCE)
+        sys.path.insert(0, out_dir)
+        import importlib
+        aux = importlib.import_module(AUX_MODULE)
+        classes |= {getattr(aux, c) for c in AUX_CLASSES}
         alts = [a for a in recursive_subclasses(AlternativeMapping) if a.original_class() in classes]
         diagram = ClassDiagram(list(sorted(classes, key=lambda c: c.__name__, reverse=True)))
         ormatic = ORMatic(
@@ -990,6 +1126,7 @@ def _worker_init(repo: str, d: str) -> None:
         import importlib
         from sqlalchemy.orm import configure_mappers
         from test.dataset import example_classes as ex
+        importlib.import_module(AUX_MODULE)
         iface = importlib.import_module(ORM_MODULE)
         configure_mappers()
         _W["ex"] = ex
